@@ -130,6 +130,8 @@ def main(argv=None):
     os.environ.setdefault("PYVC_WORK", os.path.join(VERIF, "work"))
     mods, entries = entries_for(prop, cfg, a.tier)
     entries = [e for e in entries if a.only in e[1]]
+    auto_bounded = [e for kind, key, e in entries if e.get("options", {}).get("gen") is not None or e.get("options", {}).get("also_bounded")]
+    entries = [x for x in entries if x[2].get("options", {}).get("gen") is None]
     jobs = [(mods, kind, key, a.tier) for kind, key, e in entries]
     results = []
     with cf.ProcessPoolExecutor(max_workers=a.jobs) as ex:
@@ -235,7 +237,11 @@ def main(argv=None):
         lines.append(f"VIOLATION property={prop} replay={path} obligation={o['name']}{tail}")
     # ---------------------------------------------------------------- bounded stand-ins
     bounded = []
-    bjobs = cfg.get("bounded", [])
+    bjobs = list(cfg.get("bounded", []))
+    for e in auto_bounded:
+        o = e.get("options", {})
+        bjobs.append(dict(module=e["module"], name=e["name"], n_quick=o.get("n_quick", 400), n_thorough=o.get("n_thorough", 6000),
+                          rule=o.get("rule", "generator of the contract: boundary-biased random arguments"), target=e["target"]))
     if bjobs:
         def run_b(b):
             n = b["n_thorough"] if a.tier == "thorough" else b["n_quick"]
@@ -244,7 +250,7 @@ def main(argv=None):
                 r = json.loads(out.strip().splitlines()[-1]) if out.strip() else dict(error=err[-500:])
             except Exception as e:  # noqa: BLE001
                 r = dict(error=str(e))
-            r.update(function=b["name"], bound=f"{n} generated inputs ({b.get('rule', 'boundary-biased random values of the declared types')})",
+            r.update(function=b.get("target", b["name"]) + " [" + b["name"] + "]", bound=f"{n} generated inputs ({b.get('rule', 'boundary-biased random values of the declared types')})",
                      proved=False, label="bounded stand-in: not proved")
             return r
         with cf.ThreadPoolExecutor(max_workers=a.jobs) as ex:
